@@ -4,6 +4,7 @@ CONSTANTS
   Dataset <- c_Dataset
   Comp <- c_Comp
   Owner <- c_Owner
+  DependsOn <- c_DependsOn
   Initial <- c_AllComp
   InitialColl <- c_All
   LinkMenu <- c_Menu
